@@ -115,6 +115,10 @@ pub fn arb_app_attrs(on: bool) -> BoxedStrategy<Vec<RAttr>> {
         key.clone().prop_map(|key| RAttr::Mi(MacSpec::Keyed { key, fault: Fault::Correct })),
         key.prop_map(|key| RAttr::MiSha256(MacSpec::Keyed { key, fault: Fault::Correct })),
         Just(RAttr::Fp(FpSpec::Computed(Fault::Correct))),
+        // decoded variants (as copied from a received message): not encodable, must be replaced where the client owns the type
+        Just(RAttr::Fp(FpSpec::Wire(vec![1, 2, 3, 4]))),
+        Just(RAttr::Mi(MacSpec::Wire(vec![7; 20]))),
+        Just(RAttr::MiSha256(MacSpec::Wire(vec![9; 32]))),
         Just(RAttr::Software("first".into())),
         Just(RAttr::Software("second".into())),
         Just(RAttr::Priority(1)),
